@@ -75,8 +75,14 @@ def scenarios(nmax, bmax, wmax):
             if keyed:
                 out.append(cs.make(entry, n, b, w, faults=fp, key=True))
             if entry in CATCH_ENTRIES:
-                for catch in ('true', 'user', 'tuple', 'exception', 'false', 'list'):
+                lookup = any(k in ('index', 'key') for d in fp.values()
+                             if isinstance(d, dict) for k in d.values())
+                for catch in ('true', 'user', 'tuple', 'exception', 'false', 'list',
+                              'hier', 'hier-tuple'):
                     if catch in ('false', 'list') and fi % 2 == (catch == 'list'):
+                        continue
+                    if catch.startswith('hier') and not (
+                            lookup or fi % 6 == (0 if catch == 'hier' else 3)):
                         continue
                     out.append(cs.make(entry, n, b, w, faults=fp, catch=catch))
                     if keyed:
